@@ -288,7 +288,7 @@ func c07(r *core.Run) {
 	funnelFns := map[*ssa.Function]bool{}
 	for _, tn := range requestTypes {
 		if _, setters, ok := flagOf(p, "", tn); ok && len(setters) == 1 {
-			funnelFns[setters[0]] = true
+			funnelFns[replyFunnel(p, setters[0])] = true
 		}
 	}
 	eventFunnels := map[*ssa.Function]bool{}
@@ -432,8 +432,19 @@ func c07(r *core.Run) {
 			}
 		}
 	}
+	type marg struct {
+		c   ssa.CallInstruction
+		arg ssa.Value
+	}
+	var margs []marg
 	for _, c := range marshals {
-		arg := core.Strip(c.Common().Args[0])
+		// a marshal-and-reply helper takes the envelope as a parameter: judge what its callers pass
+		for _, a := range paramArgs(p, core.Strip(c.Common().Args[0]), 0) {
+			margs = append(margs, marg{c, core.Strip(a)})
+		}
+	}
+	for _, ma := range margs {
+		c, arg := ma.c, ma.arg
 		tn := core.TypeName(arg.Type())
 		tags := jsonTags(arg.Type())
 		n := 0
